@@ -1393,6 +1393,49 @@ def m_slice_first(interp, path, args, ret_ty, callee):
     return EnumV(ret_ty, 1, {1: [_ConstRef("&" + getattr(e, "ty", "T"), e)]})
 
 
+@model(r"^Option::<&.*>::(cloned|copied)$", "Some(&x) -> Some(x)")
+def m_option_cloned(interp, path, args, ret_ty, callee):
+    o = args[0]
+    if o.kind != "enum":
+        raise Refuse("cloned on %r" % (o,))
+    vs = {0: []}
+    if o.variants.get(1):
+        vs[1] = [deref(interp, path, o.variants[1][0])]
+    return EnumV(ret_ty, o.discr, vs)
+
+
+@model(r"^" + MAP_TY + r"::<.*>::values$", "borrowing iterator over the values of the present slots")
+def m_map_values(interp, path, args, ret_ty, callee):
+    _symmap(interp, path, args[0])
+    return StructV("SymMapValues", [args[0]])
+
+
+@model(r"^<(map::|hash_map::|btree_map::)?Values<.*> as Iterator>::cloned::<.*>$", "lazy cloned adaptor")
+def m_values_cloned(interp, path, args, ret_ty, callee):
+    return args[0]
+
+
+@model(r"^<Cloned<(map::|hash_map::|btree_map::)?Values<.*>> as Iterator>::collect::<Vec<.*>>$",
+       "the values of the present slots in slot order (forks on presence)")
+def m_values_collect(interp, path, args, ret_ty, callee):
+    it = args[0]
+    if it.kind != "struct" or it.ty != "SymMapValues":
+        raise Refuse("collect over %r" % (it,))
+    mref = it.fields[0]
+    outs = []
+    work = [(path, 0, [])]
+    while work:
+        p, i, acc = work.pop()
+        m = _symmap(interp, p, mref)
+        if i == len(m.fields):
+            outs.append(Outcome(p, "ret", StructV(ret_ty or "Vec<?>", acc)))
+            continue
+        pres = m.fields[i].fields[2].term
+        for p2, tag in interp.fork(p, [(pres, "in"), (z3.Not(pres), "out")]):
+            work.append((p2, i + 1, acc + [m.fields[i].fields[1]] if tag == "in" else acc))
+    return outs
+
+
 @model(r"^Vec::<.*>::pop$", "remove and return the last element of an entry-list vector")
 def m_vec_pop(interp, path, args, ret_ty, callee):
     r = args[0]
